@@ -170,3 +170,54 @@ def run(ctx):
     from engine.whstate import wh_state
     n_wh_ = wh_state(ctx, prog)
     ctx.require(n_wh_ >= 18, 'only %d header writers found' % n_wh_)
+
+    ctx.rule('CALC-SIBS', 'the header writers that, while the file is still open, take the data length from the frame count (`psf->datalength = psf->sf.frames * psf->bytewidth * psf->sf.channels`: '
+             'WAV, RF64, CAF) do so under the same condition: the branch is what keeps the bytes of a chunk behind the audio from being counted as audio during a header update in SFM_RDWR, '
+             'and a sibling that narrows it (to SFM_WRITE only) reports too many frames', floor=3)
+    from engine.util import branch_facts as _bf11
+    inst = []
+    for name, f in sorted(wh.items()):
+        for lv, a, r in assigned_lvalues(f):
+            if lv == 'psf->datalength' and r is not None and 'psf->sf.frames *' in f.s(r) and 'bytewidth' in f.s(r):
+                facts = _bf11(f, a)
+                if facts:
+                    inst.append((name, f, a, facts[0]))
+    ctx.require(len(inst) >= 3, 'only %d header writers take the data length from the frame count' % len(inst))
+    from collections import Counter as _Cn11
+    maj = _Cn11([fc for _, _, _, fc in inst]).most_common(1)[0][0]
+    for name, f, a, fc in inst:
+        ctx.ob('CALC-SIBS', name, fc == maj, f.loc(a), 'data length from the frame count under `%s`%s' % (fc[0][:70], '' if fc == maj else ' - the siblings use `%s`' % maj[0][:70]), None)
+
+    ctx.rule('PAD-SIZE', 'a psf_binheader_writef call that emits a chunk marker, its size and then a run of zero bytes (`z`) inside that chunk (PAD / JUNK / free chunks, the SSND offset padding of AIFF): '
+             'the size expression accounts for the zero bytes - it is the zero count itself or contains it as a term. A size that leaves the padding out makes the chunk end before its data does: '
+             'the reader gets too few frames and parses audio as the next chunk', floor=4)
+    n_ps = 0
+    for g in sorted(prog.lib_fns(), key=lambda g_: (g_.file, g_.line)):
+        for c in g.calls('psf_binheader_writef'):
+            args = g.args(c)
+            fm = g.unwrap(args[1]).get('s') or ''
+            if 'm' not in fm or 'z' not in fm:
+                continue
+            # walk the format: argument index of the size that follows the marker, and of the z count
+            ai, size_arg, z_arg, after_m = 2, None, None, False
+            for ch in fm:
+                if ch in 'eEtT!':
+                    continue
+                if ch == 'm':
+                    after_m = True
+                elif ch in '48' and after_m and size_arg is None:
+                    size_arg = ai
+                elif ch == 'z' and size_arg is not None:
+                    z_arg = ai
+                if ch in 'bGsSfdp':
+                    ai += 2 if ch in 'b' else 1
+                else:
+                    ai += 1
+            if size_arg is None or z_arg is None or z_arg >= len(args):
+                continue
+            n_ps += 1
+            ss, zs = g.s(g.unwrap(args[size_arg])), g.s(g.unwrap(args[z_arg]))
+            ok = ss == zs or (zs in ss)
+            ctx.ob('PAD-SIZE', '%s@%s' % (g.name, c.get('l')), ok, g.loc(c), 'size `%s` covers the %s zero byte(s)' % (ss[:60], zs) if ok else
+                   'size `%s` does not contain the `%s` zero bytes written into the same chunk: the chunk is recorded shorter than what follows its header' % (ss[:70], zs), None)
+    ctx.require(n_ps >= 4, 'only %d marker + size + zero-fill header writes found' % n_ps)
